@@ -448,6 +448,12 @@ func scase(r *rng.R, i int, o *out.W) {
 				}
 				s := u
 				u = endParam(in[idx].ctrl, d.ctrl, s)
+				if u > 1-1e-12 { // a cut at (float) Length: the judge still checks the end point against B(1) within its slack
+					u = 1
+				}
+				if u < s {
+					u = s
+				}
 				if len(d.ctrl) > 2 {
 					ncurved++
 				}
